@@ -22,14 +22,14 @@ class NGramsMixin(VectorizerMixin):
     def _word_ngrams(self, tokens, stop_words=None):
         """Turn tokens into a sequence of n-grams after stop words filtering"""
         # handle stop words
+        if stop_words is not None:
+            tokens = [w for w in tokens if w not in stop_words]
+
         if tokens is not None:
             new_tokens = []
             for token in tokens:
                 new_tokens.append((token,) if isinstance(token, str) else token)
             tokens = new_tokens
-
-        if stop_words is not None:
-            tokens = [(w,) for w in tokens if w not in stop_words]
 
         # handle token n-grams
         min_n, max_n = self.ngram_range
